@@ -14,7 +14,7 @@ import subprocess
 import sysconfig
 import tempfile
 from pathlib import Path
-from typing import Any, Dict, Iterator, List, Optional, Set, Tuple
+from typing import Any, Dict, Iterator, List, Optional, Sequence, Set, Tuple
 
 from .core import AnalysisError, VERIF_ROOT
 from .pyfacts import Repo
@@ -156,14 +156,159 @@ class CUnit:
             return 0
         return bisect.bisect_right(self.linestarts, off)
 
-    def src_of(self, n: Dict[str, Any]) -> str:
+    def _span(self, n: Dict[str, Any]) -> Optional[Tuple[int, int]]:
         r = n.get('range', {})
         b, e = r.get('begin', {}), r.get('end', {})
         bo, eo = self._off(b), self._off(e)
         tl = self._off(e, 'tokLen') or 1
         if bo is None or eo is None:
+            return None
+        return bo, eo + tl
+
+    def _raw_src(self, n: Dict[str, Any]) -> str:
+        sp = self._span(n)
+        if sp is None:
             return '?'
-        return ' '.join(self.text[bo:eo + tl].split())
+        if not n.get('_dirty'):
+            return self.text[sp[0]:sp[1]]
+        # a node of an inlined body: the text of its own range with every replaced descendant (a substituted parameter, an
+        # inlined helper call) spliced in at the range of the node it replaced
+        reps: List[Tuple[int, int, str]] = []
+
+        def collect(x: Dict[str, Any]) -> None:
+            for ch in x.get('inner', []) or []:
+                if not isinstance(ch, dict):
+                    continue
+                if '_orig' in ch:
+                    reps.append((ch['_orig'][0], ch['_orig'][1], ch.get('_as') or self._raw_src(ch)))
+                elif ch.get('_dirty'):
+                    collect(ch)
+        collect(n)
+        out, pos = [], sp[0]
+        for b0, e0, t in sorted(reps):
+            if b0 < pos or e0 > sp[1]:
+                continue
+            out.append(self.text[pos:b0])
+            out.append(t)
+            pos = e0
+        out.append(self.text[pos:sp[1]])
+        return ''.join(out)
+
+    def src_of(self, n: Dict[str, Any]) -> str:
+        if '_as' in n:
+            return ' '.join(n['_as'].split())
+        return ' '.join(self._raw_src(n).split())
+
+    # -- opt-in normaliser: statement-level calls of unit-local void helpers read like the code they were extracted from
+    def inline_void_helpers(self, fname: str, keep: Sequence[str] = (), depth: int = 2) -> None:
+        """from now on body(fname) is a copy in which every statement that is just a call of a unit-local `void` helper (not in
+        `keep`, no return statement inside, not recursive) is replaced by the helper's body with the parameters replaced by the
+        call-site argument expressions; src_of() of the copy renders the substituted text. Helper locals keep their names."""
+        import copy
+        body = copy.deepcopy(self.body(fname))
+
+        def helper_of(stmt: Dict[str, Any]) -> Optional[Tuple[str, Dict[str, Any]]]:
+            c = stmt
+            while c.get('kind') in ('ParenExpr', 'CStyleCastExpr', 'ImplicitCastExpr') and c.get('inner'):
+                c = c['inner'][-1]
+            if c.get('kind') != 'CallExpr':
+                return None
+            name = callee(c)
+            if name not in self.funcs or name in keep or name == fname:
+                return None
+            qt = self.funcs[name].get('type', {}).get('qualType', '')
+            if not qt.startswith('void ('):
+                return None
+            return name, c
+
+        def substitute(hbody: Dict[str, Any], binding: Dict[str, Dict[str, Any]]) -> bool:
+            """replace parameter references in place; returns True if anything inside was replaced (the node is dirty)"""
+            dirty = False
+            inner = hbody.get('inner', []) or []
+            for i, ch in enumerate(inner):
+                if not isinstance(ch, dict):
+                    continue
+                if ch.get('kind') == 'DeclRefExpr' and ch.get('referencedDecl', {}).get('kind') == 'ParmVarDecl' \
+                        and ch['referencedDecl'].get('name') in binding:
+                    arg = copy.deepcopy(binding[ch['referencedDecl']['name']])
+                    sp = self._span(ch)
+                    txt = self.src_of(arg)
+                    simple = strip(arg).get('kind') in ('DeclRefExpr', 'IntegerLiteral', 'MemberExpr')
+                    rep = {'kind': 'ParenExpr', 'inner': [arg], 'range': ch.get('range', {}), 'type': ch.get('type', {}),
+                           '_orig': sp, '_as': txt if simple else f'({txt})'}
+                    inner[i] = rep
+                    dirty = True
+                elif substitute(ch, binding):
+                    dirty = True
+            if dirty:
+                hbody['_dirty'] = True
+            return dirty
+
+        def expand(node: Dict[str, Any], level: int) -> bool:
+            dirty = False
+            inner = node.get('inner', []) or []
+            for i, ch in enumerate(inner):
+                if not isinstance(ch, dict):
+                    continue
+                h = helper_of(ch) if node.get('kind') in ('CompoundStmt', 'IfStmt', 'ForStmt', 'WhileStmt', 'DoStmt', 'LabelStmt', 'CaseStmt', 'DefaultStmt') \
+                    and level > 0 else None
+                if h is not None:
+                    name, call = h
+                    params = self.params(name)
+                    args = call_args(call)
+                    if len(params) == len(args):
+                        hb = copy.deepcopy(self.body(name))
+                        # an early `return;` of the helper leaves the inlined block: a goto to a label appended to it
+                        rets = [x for x in walk(hb) if x.get('kind') == 'ReturnStmt']
+                        if rets:
+                            self._inline_serial = getattr(self, '_inline_serial', 0) + 1
+                            lid = f'inlined-end-{self._inline_serial}'
+                            for r_ in rets:
+                                sp0 = self._span(r_)
+                                keep_range = r_.get('range', {})
+                                r_.clear()
+                                r_.update({'kind': 'GotoStmt', 'targetLabelDeclId': lid, 'range': keep_range, '_as': f'goto end_of_{name}',
+                                           '_was_return': True})
+                                if sp0:
+                                    r_['_orig'] = sp0
+                            hb.setdefault('inner', []).append({'kind': 'LabelStmt', 'declId': lid, 'name': f'end_of_{name}',
+                                                               'inner': [{'kind': 'NullStmt'}], 'range': {}})
+                        substitute(hb, dict(zip(params, args)))
+                        expand(hb, level - 1)
+                        hb['_orig'] = self._span(ch)
+                        hb['_dirty'] = True
+                        hb['_inlined_from'] = name
+                        inner[i] = hb
+                        dirty = True
+                        continue
+                if expand(ch, level):
+                    dirty = True
+            if dirty:
+                node['_dirty'] = True
+            return dirty
+        def mark(n: Dict[str, Any]) -> bool:
+            d = False
+            for ch in n.get('inner', []) or []:
+                if isinstance(ch, dict):
+                    sub = mark(ch)
+                    if sub or '_orig' in ch:
+                        d = True
+            if d:
+                n['_dirty'] = True
+            return d
+        if expand(body, depth):
+            mark(body)
+            if not hasattr(self, '_body_override'):
+                self._body_override: Dict[str, Dict[str, Any]] = {}
+            self._body_override[fname] = body
+            stack = [body]
+            self._parent[id(body)] = self.func(fname)
+            while stack:
+                n = stack.pop()
+                for c in n.get('inner', []) or []:
+                    if isinstance(c, dict):
+                        self._parent[id(c)] = n
+                        stack.append(c)
 
     def site(self, n: Dict[str, Any], func: str = '') -> str:
         return f'{self.rel}:{self.line_of(n)}' + (f' {func}' if func else '')
@@ -197,6 +342,9 @@ class CUnit:
         return self.funcs[name]
 
     def body(self, name: str) -> Dict[str, Any]:
+        ov = getattr(self, '_body_override', None)
+        if ov and name in ov:
+            return ov[name]
         return [c for c in self.func(name)['inner'] if c.get('kind') == 'CompoundStmt'][0]
 
     def params(self, name: str) -> List[str]:
@@ -279,3 +427,97 @@ def dispatcher_of(cu: 'CUnit', impl: str) -> str:
         from .core import AnalysisError
         raise AnalysisError(f'{impl}: expected exactly one dispatching caller, found {callers}')
     return callers[0]
+
+
+# ---------------------------------------------------------------- local definitions, aliases, wrapping cursors
+
+def local_defs(cu: 'CUnit', fname: str) -> Dict[str, List[Dict[str, Any]]]:
+    """name -> the value expressions of every plain definition of that local (declaration initialiser or `v = E`); a local that
+    is also modified in any other way (++, --, op=, address taken) gets an extra None entry."""
+    out: Dict[str, List[Any]] = {}
+    for n in walk(cu.body(fname)):
+        k = n.get('kind')
+        if k == 'VarDecl' and n.get('inner'):
+            init = [c for c in n['inner'] if isinstance(c, dict) and c.get('kind')]
+            if init:
+                out.setdefault(n['name'], []).append(init[-1])
+        elif is_assign(n):
+            l0 = strip(n['inner'][0])
+            if l0.get('kind') == 'DeclRefExpr':
+                out.setdefault(l0['referencedDecl']['name'], []).append(n['inner'][1])
+        elif k == 'CompoundAssignOperator' or (k == 'UnaryOperator' and n.get('opcode') in ('++', '--', '&')):
+            l0 = strip(n['inner'][0])
+            if l0.get('kind') == 'DeclRefExpr':
+                out.setdefault(l0['referencedDecl']['name'], []).append(None)
+    return out
+
+
+def alias_binding(cu: 'CUnit', fname: str) -> Dict[str, Any]:
+    """single-definition locals whose value is just another name / field / literal (possibly cast): name -> IR of that value.
+    `const uint64_t ring_length = (uint64_t)last_ops_length;` makes ring_length read as last_ops_length."""
+    from .linexpr import c_ir, ir_subst
+    params = set(cu.params(fname))
+    out: Dict[str, Any] = {}
+    for name, vals in local_defs(cu, fname).items():
+        if name in params or len(vals) != 1 or vals[0] is None:
+            continue
+        ir = c_ir(vals[0], cu.src_of)
+        if ir[0] in ('sym', 'attr', 'num'):
+            out[name] = ir
+    for _ in range(3):
+        out = {k: ir_subst(v, {a: b for a, b in out.items() if a != k}) for k, v in out.items()}
+    return out
+
+
+def wrapping_cursors(cu: 'CUnit', fname: str) -> Dict[str, Dict[str, Any]]:
+    """locals used as a wrapping ring cursor: defined once outside any loop as `E % L`, and inside exactly one loop modified
+    only by an increment by one that is directly followed by the wrap `if (c == L) c = 0;` (same L after alias resolution).
+    Then c < L holds wherever c is read outside the increment/wrap pair, and in iteration k of the loop c == (E + k) % L.
+    -> name -> dict(init=IR of E % L, mod=IR of L, loop=the loop statement)."""
+    from .linexpr import c_ir, ir_subst, show
+    al = alias_binding(cu, fname)
+    out: Dict[str, Dict[str, Any]] = {}
+    body = cu.body(fname)
+    for name, vals in local_defs(cu, fname).items():
+        plain = [v for v in vals if v is not None]
+        if len(plain) != 2 or vals.count(None) != 1:
+            continue
+        irs = [ir_subst(c_ir(v, cu.src_of), al) for v in plain]
+        inits = [ir for ir in irs if ir[0] == 'bin' and ir[1] == '%']
+        zeros = [ir for ir in irs if ir == ('num', 0)]
+        if len(inits) != 1 or len(zeros) != 1:
+            continue
+        mod = inits[0][3]
+        # the increment and the wrap: adjacent statements of one compound inside a loop
+        found = None
+        inc_stmt = None
+        for comp in [x for x in walk(body) if x.get('kind') == 'CompoundStmt']:
+            sts = [x for x in comp.get('inner', []) if isinstance(x, dict)]
+            for a, b in zip(sts, sts[1:]):
+                ia = strip(a)
+                is_inc = (ia.get('kind') == 'UnaryOperator' and ia.get('opcode') == '++' and strip(ia['inner'][0]).get('referencedDecl', {}).get('name') == name) or \
+                         (ia.get('kind') == 'CompoundAssignOperator' and ia.get('opcode') == '+=' and strip(ia['inner'][0]).get('referencedDecl', {}).get('name') == name
+                          and int_value(strip(ia['inner'][1])) == 1)
+                if not is_inc or b.get('kind') != 'IfStmt' or len(b.get('inner', [])) != 2:
+                    continue
+                t = ir_subst(c_ir(b['inner'][0], cu.src_of), al)
+                if not (t[0] == 'cmp' and t[1] in (['=='], ['>=']) and t[2][0] == ('sym', name) and show(t[2][1]) == show(mod)):
+                    continue
+                resets = [x for x in walk(b['inner'][1]) if is_assign(x) and strip(x['inner'][0]).get('referencedDecl', {}).get('name') == name
+                          and int_value(strip(x['inner'][1])) == 0]
+                if len(resets) == 1:
+                    found = comp
+                    inc_stmt = a
+        if found is None:
+            continue
+        loop = None
+        cur = cu.parent(found)
+        while isinstance(cur, dict):
+            if cur.get('kind') in ('ForStmt', 'WhileStmt', 'DoStmt'):
+                loop = cur
+                break
+            cur = cu.parent(cur)
+        if loop is None:
+            continue
+        out[name] = dict(init=inits[0], mod=mod, loop=loop, inc=inc_stmt)
+    return out
